@@ -144,3 +144,17 @@ Qed.
 Theorem sem_extensional_program w1 w2 : same_answers w1 w2 ->
   forall n name args s, nquery n w1 name args s = nquery n w2 name args s.
 Proof. intros H. apply world_equiv_nquery. apply same_answers_equiv. exact H. Qed.
+
+Lemma ofun_eq_refl o : ofun_eq o o.
+Proof. destruct o; simpl; [reflexivity | exact I]. Qed.
+
+(* changing only the values that a registered predicate yields changes no answer of any query *)
+Theorem yield_value_irrelevant_world ir fixl varl dynl name k rows vals1 vals2 n qname args s :
+  nquery n (mk_world ir ((name, k, native_rows rows vals1) :: fixl) varl dynl) qname args s =
+  nquery n (mk_world ir ((name, k, native_rows rows vals2) :: fixl) varl dynl) qname args s.
+Proof.
+  apply sem_extensional_program. repeat split; cbn [mk_world w_ir w_dyn w_fix w_var]; intros.
+  - cbn [lookup_fix]. destruct (key_eq (name, k) (name0, k0)); [|apply ofun_eq_refl].
+    cbn [ofun_eq]. intros a s0. rewrite !drop_native_rows. reflexivity.
+  - apply ofun_eq_refl.
+Qed.
